@@ -5,6 +5,8 @@ compared with the hand-written RFC 4648 section 5 codec of refjose and with Pyth
 """
 from __future__ import annotations
 
+import zlib
+
 from ..api import J, call
 from refjose.prim import b64u_enc, b64u_dec, B64Error, int_b64, _ALPHA
 
@@ -43,6 +45,15 @@ def _check_roundtrip(ctx, u, data: bytes):
     ctx.count("roundtrip")
 
 
+def _check_decode_bad_variants(ctx, u, text: bytes, why: str):
+    """the same bad input as bytearray / memoryview / str: a type the codec does not take may be refused with TypeError, but nothing is decoded"""
+    for tname, arg in (("bytearray", bytearray(text)), ("memoryview", memoryview(text)), ("str", text.decode("latin-1"))):
+        o = call(u.urlsafe_b64decode, arg)
+        ctx.count("bad_input_type_variants")
+        if o.ok:
+            ctx.violation(f"accepts-bad-input-as-{tname}", f"urlsafe_b64decode({tname} of {text[:40]!r}) returned {o.value[:20]!r} ({why})", {"f": "dec", "text": text, "as": tname})
+
+
 def _check_decode_bad(ctx, u, text: bytes, why: str):
     """text must be refused with a ValueError"""
     ctx.ev()
@@ -53,6 +64,8 @@ def _check_decode_bad(ctx, u, text: bytes, why: str):
     elif not o.is_a("ValueError"):
         ctx.violation(f"decode-raises:{o.etype}", f"urlsafe_b64decode({text!r}) raised {o.exc!r}, not a ValueError",
                       {"f": "dec", "text": text, "why": why})
+    if zlib.crc32(text) % 8 == 0:
+        _check_decode_bad_variants(ctx, u, text, why)
 
 
 def run_shard(ctx):
@@ -211,6 +224,21 @@ def run_shard(ctx):
     # strings every JSON encoder can write with \u escapes: lone surrogates (json.loads('"\\ud800"') yields one), astral and control characters
     # (a high surrogate directly followed by a low one is left out: it comes back as one astral character)
     special = ["\ud800", "\udfff", "x\udbff", "\udc00x", "\ud800 \udc00", "\U0001F600", "\x00", "\x7f", "\u2028\u2029", "\ufeff", "\uffff", "é", "\u00e9\u0301"]
+    # big but shallow headers (many small containers, braces inside strings): size is no reason to refuse a header
+    for name, h in (("300-objects", {"x5c": ["a"], "list": [{"i": i} for i in range(300)]}), ("matrix", {"m": [[i, i + 1] for i in range(1000)]}),
+                    ("braces-in-string", {"cty": "{[" * 50000}), ("many-members", {f"k{i}": i for i in range(5000)}), ("nested-100", None)):
+        if h is None:
+            h = cur = {}
+            for _i in range(100):
+                cur["n"] = {}
+                cur = cur["n"]
+        ctx.ev()
+        o = call(u.json_b64encode, h)
+        o2 = call(u.json_b64decode, o.value) if o.ok else o
+        ctx.count("json_big_headers")
+        if not o.ok or not o2.ok or not _json_equal(o2.value, h):
+            ctx.violation(f"json-roundtrip:big:{(o2 if o.ok else o).etype if not (o.ok and o2.ok) else 'differs'}", f"big shallow header ({name}) does not round-trip: "
+                          f"{(o2 if o.ok else o)!r}", {"f": "json-big", "name": name})
     n_json = 1500 if ctx.tier == "quick" else 40000
     for it in range(n_json):
         h = {rand_str(rng): rand_json(rng, 0, 3) for _ in range(rng.randrange(0, 5))}
